@@ -40,6 +40,9 @@ type fdSpec struct {
 	// Inline says whether a statically resolved callee is walked as part of the caller (nil = never).
 	// Calls that Symbol names or Effect labels are never inlined.
 	Inline func(callee *ssa.Function) bool
+	// RecordCut keeps the trace of a path that is abandoned because a block was visited more than MaxVisits
+	// times (terminal label "cut"); by default such paths are dropped.
+	RecordCut bool
 }
 
 type fdPath struct {
@@ -228,6 +231,9 @@ func fdRun(fn *ssa.Function, spec *fdSpec, assign map[string]int64) []string {
 		if from == 0 {
 			p.visits[b]++
 			if p.visits[b] > maxV || len(out) > 4096 {
+				if spec.RecordCut && p.visits[b] > maxV {
+					out[strings.Join(append(p.trace, "cut"), " > ")] = true
+				}
 				return
 			}
 		}
